@@ -2,6 +2,7 @@
 from __future__ import annotations
 import ast
 import z3
+from .qa import ForAll as QForAll
 from . import ty
 from .ty import T, INT, REAL, BOOL, STR, NONE
 from .prelude import seq_ops
@@ -256,7 +257,7 @@ def measure_array(E, mname: str, st, fr):
             if tmp.heap or any(True for _ in []):
                 pass
             # must only depend on immutable fields
-            E.extra_axioms.append(z3.ForAll([x], z3.Select(arr, x) == val.z, patterns=[z3.Select(arr, x)]))
+            E.extra_axioms.append(QForAll([x], z3.Select(arr, x) == val.z, patterns=[z3.Select(arr, x)]))
             E.measure_arrays[mname] = (arr, t, val, x)
         arr, t, _v, _x = E.measure_arrays[mname]
         return arr, t
@@ -319,7 +320,7 @@ def builtin_call(E, name, node, st, fr):
         f = E.ufn(f"str_of_{v.z.sort()}", v.z.sort(), ty.StrSort)
         inv = E.ufn(f"str_of_{v.z.sort()}!inv", ty.StrSort, v.z.sort())
         x = z3.Const("sx", v.z.sort())
-        ax = z3.ForAll([x], inv(f(x)) == x, patterns=[f(x)])
+        ax = QForAll([x], inv(f(x)) == x, patterns=[f(x)])
         if not any(ax.eq(a) for a in E.extra_axioms):
             E.extra_axioms.append(ax)
             E.assumptions.add("A-STR: str(x) is injective per argument type")
@@ -346,7 +347,7 @@ def builtin_call(E, name, node, st, fr):
         el = E.truthy(V(et, so.At(s, i)), st, fr)
         dom = z3.And(0 <= i, i < so.Len(s))
         if name == "all":
-            return V(BOOL, z3.ForAll([i], z3.Implies(dom, el), patterns=[so.At(s, i)]))
+            return V(BOOL, QForAll([i], z3.Implies(dom, el), patterns=[so.At(s, i)]))
         return V(BOOL, z3.Exists([i], z3.And(dom, el)))
     if name == "sum":
         return builtin_sum(E, node, st, fr)
@@ -464,7 +465,7 @@ def builtin_sum(E, node, st, fr):
         # general case: define a measure array by lambda abstraction
         arr = fresh("lam", z3.ArraySort(ty.zsort(et), z.sort()))
         y = fresh("ly", ty.zsort(et))
-        st.assume(z3.ForAll([y], z3.Select(arr, y) == z3.substitute(z, (x, y)), patterns=[z3.Select(arr, y)]))
+        st.assume(QForAll([y], z3.Select(arr, y) == z3.substitute(z, (x, y)), patterns=[z3.Select(arr, y)]))
         return V(elt.t, seq_ops(et).Sum(z.sort())(seq, arr))
     v = E.ev(A[0], st, fr)
     if len(A) == 2:
@@ -474,7 +475,7 @@ def builtin_sum(E, node, st, fr):
         raise CheckerError("sum of non-numeric list")
     ident = z3.Const(f"ident_{et.kind}", z3.ArraySort(ty.zsort(et), ty.zsort(et)))
     y = z3.Const("iy", ty.zsort(et))
-    ax = z3.ForAll([y], z3.Select(ident, y) == y, patterns=[z3.Select(ident, y)])
+    ax = QForAll([y], z3.Select(ident, y) == y, patterns=[z3.Select(ident, y)])
     if not any(ax.eq(a) for a in E.extra_axioms):
         E.extra_axioms.append(ax)
     return V(et, seq_ops(et).Sum(ty.zsort(et))(s, ident))
@@ -549,6 +550,8 @@ def call_function(E, q, args, kwargs, st, fr, node, is_init=False):
     argmap = bind_params(E, q, fn, args, kwargs, st, fr)
     c = E.spec.fns.get(q)
     top = E.spec.fns.get(getattr(E, "verifying", "") or "")
+    if top is not None and q in top.variants and not fr.spec:
+        c = E.spec.fns[top.variants[q]]
     if top is not None and q in top.weak_calls and not fr.spec:
         return havoc_call(E, q, c, st, fr, node)
     if any(isinstance(n, (ast.Yield, ast.YieldFrom)) for n in ast.walk(fn)):
@@ -614,7 +617,8 @@ def havoc_call(E, q, c, st, fr, node):
     st.heap[("alloc",)] = newa
     st.note_write(("alloc",), None)
     r = fresh("r", ty.RefSort)
-    st.assume(z3.ForAll([r], z3.Implies(z3.Select(olda, r), z3.Select(newa, r)), patterns=[z3.Select(olda, r)]))
+    st.assume(QForAll([r], z3.Implies(z3.Select(olda, r), z3.Select(newa, r)), patterns=[z3.Select(olda, r)]))
+    E.alloc_from_initial(st)
     E.wf_keys(st, [k for k in keys if k != ("alloc",)])
     es = st.copy()
     sel = fresh("raised", z3.BoolSort())
@@ -816,7 +820,7 @@ def method_call(E, recv, meth, args, kwargs, st, fr, node):
             R = fresh("vals", so2.S)
             j = fresh("vj", z3.IntSort())
             st.assume(so2.Len(R) == so.Len(keys))
-            st.assume(z3.ForAll([j], z3.Implies(z3.And(0 <= j, j < so.Len(keys)), so2.At(R, j) == z3.Select(vals, so.At(keys, j))),
+            st.assume(QForAll([j], z3.Implies(z3.And(0 <= j, j < so.Len(keys)), so2.At(R, j) == z3.Select(vals, so.At(keys, j))),
                                 patterns=[so2.At(R, j)]))
             return V(ty.SeqV(vt), R)
         if meth == "items":
@@ -826,7 +830,7 @@ def method_call(E, recv, meth, args, kwargs, st, fr, node):
             R = fresh("items", so2.S)
             j = fresh("ij", z3.IntSort())
             st.assume(so2.Len(R) == so.Len(keys))
-            st.assume(z3.ForAll([j], z3.Implies(z3.And(0 <= j, j < so.Len(keys)),
+            st.assume(QForAll([j], z3.Implies(z3.And(0 <= j, j < so.Len(keys)),
                                                 so2.At(R, j) == mk(so.At(keys, j), z3.Select(vals, so.At(keys, j)))),
                                 patterns=[so2.At(R, j)]))
             return V(ty.SeqV(tt), R)
@@ -857,7 +861,7 @@ def method_call(E, recv, meth, args, kwargs, st, fr, node):
             f = E.ufn("str_strip", ty.StrSort, ty.StrSort)
             ax = [f(ty.str_lit("")) == ty.str_lit("")]
             x = z3.Const("ssx", ty.StrSort)
-            ax.append(z3.ForAll([x], f(f(x)) == f(x), patterns=[f(f(x))]))
+            ax.append(QForAll([x], f(f(x)) == f(x), patterns=[f(f(x))]))
             for a in ax:
                 if not any(a.eq(b) for b in E.extra_axioms):
                     E.extra_axioms.append(a)
@@ -883,8 +887,8 @@ def list_sort(E, recv, kwargs, st, fr, node):
     E.assumptions.add("list.sort: result is a permutation of the input, sorted by the key (stable)")
     x = fresh("px", so.E)
     st.assume(so.Len(R) == so.Len(seq))
-    st.assume(z3.ForAll([x], so.Mem(R, x) == so.Mem(seq, x), patterns=[so.Mem(R, x)]))
-    st.assume(z3.ForAll([x], so.Mem(R, x) == so.Mem(seq, x), patterns=[so.Mem(seq, x)]))
+    st.assume(QForAll([x], so.Mem(R, x) == so.Mem(seq, x), patterns=[so.Mem(R, x)]))
+    st.assume(QForAll([x], so.Mem(R, x) == so.Mem(seq, x), patterns=[so.Mem(seq, x)]))
     st.assume(z3.Implies(so.NoDup(seq), so.NoDup(R)))
     key = kwargs.get("key")
     rev = kwargs.get("reverse")
@@ -900,7 +904,7 @@ def list_sort(E, recv, kwargs, st, fr, node):
     ki, kj = keyof(so.At(R, i)), keyof(so.At(R, j))
     desc = rev is not None and z3.is_true(z3.simplify(rev.z))
     order = (ki >= kj) if desc else (ki <= kj)
-    st.assume(z3.ForAll([i, j], z3.Implies(z3.And(0 <= i, i < j, j < so.Len(R)), order),
+    st.assume(QForAll([i, j], z3.Implies(z3.And(0 <= i, i < j, j < so.Len(R)), order),
                         patterns=[z3.MultiPattern(so.At(R, i), so.At(R, j))]))
     E.set_list_seq(st, recv, R)
     return V(NONE, ty.null)
